@@ -370,4 +370,30 @@ theorem lfp_step (P : Prog) (env : Nat → Nat) (i : Nat) :
     evalExpr env (lfp P env) (P.node i).body = lfp P env i :=
   congrFun (lfp_fix P env) i
 
+/-! ## the memoised reference of the driver computes `lfp` -/
+
+theorem kleeneL_getD (P : Prog) (env : Nat → Nat) (k i : Nat) :
+    (kleeneL P env k).getD i 0 = kleene P env k i := by
+  induction k generalizing i with
+  | zero =>
+    simp only [kleeneL, kleene]
+    by_cases hi : i < P.n
+    · simp [List.getD_eq_getElem?_getD, hi]
+    · simp [List.getD_eq_getElem?_getD, hi]
+  | succ k ih =>
+    simp only [kleeneL, kleene, step]
+    have hf : (fun j => (kleeneL P env k)[j]?.getD 0) = kleene P env k := by
+      funext j
+      rw [← List.getD_eq_getElem?_getD]; exact ih j
+    by_cases hi : i < P.n
+    · simp [List.getD_eq_getElem?_getD, hi, hf]
+    · have h0 := kleene_out P env (k + 1) (i := i) (by omega)
+      simp only [kleene, step] at h0
+      simp [List.getD_eq_getElem?_getD, hi, h0]
+
+/-- `svdriver cycle`'s `lfp <i>` prints the reference `lfp P env i`. -/
+theorem lfpL_getD (P : Prog) (env : Nat → Nat) (i : Nat) :
+    (lfpL P env).getD i 0 = lfp P env i :=
+  kleeneL_getD P env _ i
+
 end SalsaVerif.Proofs.Cycle
